@@ -19,10 +19,18 @@ def sym_model(name):
             vals.append(S.Sym(Poly.var(v)))
         return vals
 
-    if name == "constrained":
+    if name in ("constrained", "constrained-nonsingular"):
         def model(A, b, call):
             st = S.state()
             n = b.shape[0]
+            if name == "constrained-nonsingular" and st.memo.get("solver_eqs"):
+                # a NON-SINGULAR system with right-hand side 0 has the solution 0.  "rhs == 0" is decided modulo the
+                # equations of the earlier solves (exact linear algebra, verified symbolically).
+                from gsv.symkernel import linear_membership
+                prev = st.memo["solver_eqs"]
+                if all(x.d is None and linear_membership(st, x.n, prev) for x in b.values()):
+                    st.notes.append(("solver", "rhs == 0 modulo earlier solves: returned 0 (assumes a non-singular system)"))
+                    return symnp.zeros(n)
             dx = fresh(call, n, st)
             eqs = st.memo.setdefault("solver_eqs", [])
             for i in range(n):
@@ -58,7 +66,7 @@ def sym_model(name):
 
 def install_numeric(name, r, rng):
     """Numeric counterpart: returns an undo callable."""
-    if name in (None, "constrained", "functional"):
+    if name in (None, "constrained", "constrained-nonsingular", "functional"):
         return lambda: None
     if name == "fault":
         import numpy
